@@ -40,6 +40,7 @@ SUTS = {}
 
 SUTS["c31_tri"] = '''
 import math
+import time
 
 
 def classify(a: int, b: int, c: int) -> str:
@@ -82,6 +83,13 @@ def nothing(x: int) -> None:
     if x > 10:
         return None
     return None
+
+
+def nap(ms: int) -> int:
+    time.sleep(ms / 1000.0)
+    if ms > 500:
+        return ms
+    return -ms
 
 
 def spin_forever(x: int) -> int:
@@ -235,6 +243,35 @@ class BaseOnly(BaseException):
     pass
 
 
+class Token:
+    def __init__(self, kind: str):
+        self.kind = kind
+
+
+_MESSAGES = {"missing": "the thing is missing", "broken": "the thing is broken"}
+
+
+class CtorAttributeError(Exception):
+    """Re-creating it from its pickled args calls __init__(str): str has no .kind -> AttributeError."""
+
+    def __init__(self, token):
+        super().__init__(f"unexpected token {token.kind}")
+
+
+class CtorValueError(Exception):
+    """Re-creating it from args=('E007',) runs int('E007') -> ValueError."""
+
+    def __init__(self, code):
+        super().__init__(f"E{int(code):03d}")
+
+
+class CtorKeyError(Exception):
+    """Re-creating it from args=(message,) looks the message up as a key -> KeyError."""
+
+    def __init__(self, name):
+        super().__init__(_MESSAGES[name])
+
+
 def raise_plain(x: int) -> int:
     if x >= 0:
         raise PlainError("plain")
@@ -262,6 +299,24 @@ def raise_lambda_payload(x: int) -> int:
 def raise_lock_payload(x: int) -> int:
     if x >= 0:
         raise LockPayloadError("lock")
+    return x
+
+
+def raise_ctor_attribute_error(x: int) -> int:
+    if x >= 0:
+        raise CtorAttributeError(Token("comma"))
+    return x
+
+
+def raise_ctor_value_error(x: int) -> int:
+    if x >= 0:
+        raise CtorValueError(7)
+    return x
+
+
+def raise_ctor_key_error(x: int) -> int:
+    if x >= 0:
+        raise CtorKeyError("missing")
     return x
 
 
@@ -430,7 +485,8 @@ DIRECTED = {
     ],
     "c31_exc": [
         [f"var_0 = {{m}}.fine(7)", f"var_1 = {{m}}.{fn}(1)"] for fn in (
-            "raise_plain", "raise_ctor_args", "raise_kwonly", "raise_lambda_payload", "raise_lock_payload", "raise_local_class",
+            "raise_plain", "raise_ctor_args", "raise_kwonly", "raise_ctor_attribute_error", "raise_ctor_value_error",
+            "raise_ctor_key_error", "raise_lambda_payload", "raise_lock_payload", "raise_local_class",
             "raise_base", "raise_chained", "raise_group", "raise_stop", "raise_unicode", "raise_oserror")
     ] + [["var_0 = {m}.raise_plain(-1)", "var_1 = {m}.fine(1)", "var_2 = {m}.raise_ctor_args(-2)"]],
     "c31_obj": [
@@ -452,7 +508,8 @@ def floors(tier):
         "classes": {
             "directed": 40, "factory": 150 * k, "single-execute": 60, "batch-execute_multiple": 100 * k,
             "with-exception": 60, "with-assertion-trace": 150, "verification": 150, "verification:some-violated": 50,
-            "timeout-case": 1, "float-result": 5, "exception:AttributeError": 3, "exception:ZeroDivisionError": 2,
+            "timeout-case": 1, "float-result": 5, "slow:within-budget": 8, "slow:above-budget": 2,
+            "exception:constructor-raises-on-args": 6, "exception:AttributeError": 3, "exception:ZeroDivisionError": 2,
         } | {f"module:{m}": 30 for m in MODS},
     }
 
@@ -461,6 +518,9 @@ def plan(tier, seed):
     out = []
     for m in MODS:
         out.append({"name": "directed", "module": m})
+    for ci in range(len(SLOW_CONFIGS)):
+        out.append({"name": "slow", "module": "c31_tri", "config": ci, "reps": 1 if tier == "quick" else 2,
+                    "ks": [2, 3, 4, 6] if tier == "quick" else [2, 3, 4, 5, 6]})
     parts = 2 if tier == "quick" else 6
     n = 26 if tier == "quick" else 70
     for m in MODS:
@@ -494,8 +554,10 @@ def _exc_feature(e) -> str:
         return "function-local-class"
     try:
         cls(*e.args)
-    except Exception:  # noqa: BLE001
+    except TypeError:
         return "constructor-not-callable-with-args"
+    except Exception:  # noqa: BLE001
+        return "constructor-raises-on-args"  # (not a TypeError: dill.detect.baditems itself raises on such an object)
     import pickle
 
     try:
@@ -648,6 +710,8 @@ def _classes(modname, lines, s, origin, how):
             short = e.split(".")[-1]
             if short in ("AttributeError", "ZeroDivisionError"):
                 cl.add(f"exception:{short}")
+    if any(e.split(".")[-1] in ("CtorAttributeError", "CtorValueError", "CtorKeyError") for e in s["exc"].values()):
+        cl.add("exception:constructor-raises-on-args")
     if s.get("assertions"):
         cl.add("with-assertion-trace")
         if any("FloatAssertion" in x for v in s["assertions"].values() for x in v):
@@ -741,6 +805,100 @@ def _compare_tests(ctx, sp, modname, tests, origin, rng, batch_sizes):
             _cmp(ctx, modname, lines, s1, sb, "single-execute" if len(grp) == 1 else "batch-execute_multiple", "verification")
 
 
+SLOW_CONFIGS = [(5, 1), (3, 1), (2, 0.5)]  # (maximum_test_execution_timeout, test_execution_time_per_statement), all with max != per
+
+
+def _slow_cases(alias, configs=None, ks=(2, 3, 4, 5, 6)):
+    """(lines, config, kind, planned runtime s, allowed s). Margins: within = [1.5*per, 0.6*allowed], above = 1.6*allowed."""
+    out = []
+    for mx, per in (configs or SLOW_CONFIGS):
+        for k in ks:
+            allowed = min(mx, per * k)
+            lo, hi = 1.5 * per, 0.6 * allowed
+            if lo <= hi:
+                for split in (1, 2):
+                    runtime = lo + (hi - lo) * (0.25 if split == 1 else 0.75)
+                    naps = [runtime] if split == 1 or k < 4 else [runtime * 0.6, runtime * 0.4]
+                    lines = []
+                    for i, d in enumerate(naps):
+                        lines.append(f"var_{len(lines)} = {int(d * 1000)}")
+                        lines.append(f"var_{len(lines)} = {alias}.nap(var_{len(lines) - 1})")
+                    while len(lines) < k:
+                        lines.append(f"var_{len(lines)} = {alias}.parity({len(lines)})")
+                    if len(lines) == k:
+                        out.append((lines, (mx, per), "within-budget", runtime, allowed))
+            if allowed <= 3 and k in (2, 3):
+                runtime = 1.6 * allowed
+                lines = [f"var_0 = {int(runtime * 1000)}", f"var_1 = {alias}.nap(var_0)"] + [f"var_{i} = {alias}.parity({i})" for i in range(2, k)]
+                out.append((lines, (mx, per), "above-budget", runtime, allowed))
+    return out
+
+
+def _run_slow(ctx, sp, modname, alias, reps, configs, ks):
+    import time as _t
+
+    from pynguin.assertion.assertiontraceobserver import RemoteAssertionTraceObserver
+    from vlib import exech as H
+
+    keys = ("timeout", "exc", "lines", "branches", "assertions")
+
+    def both(t, cfg):
+        p = Pair(sp, RemoteAssertionTraceObserver, cfg[0], cfg[1])
+        ra, rb = p.inp.execute(t), p.sub.execute(t)
+        return _summ(ra, sp, False), _summ(rb, sp, False)
+
+    def calibrate():
+        p = Pair(sp, RemoteAssertionTraceObserver, 20, 10)
+        t = H.mk_test([f"var_0 = {alias}.parity(3)"])
+        t0 = _t.monotonic()
+        p.sub.execute(t)
+        return _t.monotonic() - t0
+
+    cal = calibrate()
+    ctx.extra.setdefault("calibration_trivial_subprocess_execution_s", []).append(round(cal, 2))
+    for _rep in range(reps):
+        for lines, cfg, kind, runtime, allowed in _slow_cases(alias, configs, ks):
+            t = H.mk_test(lines)
+            attempts = []
+            for _ in range(3):  # a disagreement must show three times out of three
+                try:
+                    sa, sb = both(t, cfg)
+                except Exception as e:  # noqa: BLE001
+                    ctx.witness(f"execute-raises:slow-test:{type(e).__name__}", f"execution raised {e!r}", {"test": lines, "config": cfg})
+                    attempts = []
+                    break
+                attempts.append((sa, sb))
+                if all(sa[k] == sb[k] for k in keys):
+                    break
+            if not attempts:
+                continue
+            sa, sb = attempts[-1]
+            ctx.ok(cls=[f"slow:{kind}", "config:max!=per-statement", f"module:{modname}"], distinct=[modname, lines, list(cfg)])
+            if all(sa[k] == sb[k] for k in keys):
+                if len(attempts) > 1:
+                    ctx.anomaly("slow-test-disagreement-not-reproduced")
+                if kind == "within-budget" and sa["timeout"]:
+                    ctx.anomaly("both-executors-time-out-within-budget")  # agreement holds; load or a budget defect outside C31
+                if kind == "above-budget" and not sa["timeout"]:
+                    ctx.anomaly("both-executors-finish-above-budget")
+                continue
+            cal2 = calibrate()
+            if max(cal, cal2) > 0.4:
+                ctx.anomaly("slow-test-disagreement-on-overloaded-machine")
+                ctx.inconclusive_because(f"slow test disagreed 3/3 but a trivial subprocess execution takes {max(cal, cal2):.2f}s (machine overloaded)")
+                continue
+            case = {"module": modname, "test": lines, "config": {"maximum_test_execution_timeout": cfg[0], "test_execution_time_per_statement": cfg[1]},
+                    "planned_runtime_s": round(runtime, 2), "allowed_s": allowed, "in_process": {k: sa[k] for k in ("timeout", "exc")},
+                    "subprocess": {k: sb[k] for k in ("timeout", "exc")}}
+            if sa["timeout"] != sb["timeout"]:
+                side = "subprocess-only" if sb["timeout"] else "in-process-only"
+                ctx.witness(f"timeout-flag:{side}:slow-{kind}:max!=per-statement",
+                            f"test running {runtime:.2f}s with allowed timeout {allowed}s (config {cfg}): in-process timeout={sa['timeout']}, "
+                            f"subprocess timeout={sb['timeout']} (3/3 attempts)", case)
+            else:
+                _cmp(ctx, modname, lines, sa, sb, f"slow-{kind}", "assertion-trace")
+
+
 def run_chunk(spec, ctx):
     import pynguin.configuration as config
     from vlib import exech as H
@@ -748,6 +906,9 @@ def run_chunk(spec, ctx):
     modname = spec["module"]
     sp, _, _ = H.setup_sut(ctx.scratch, modname, SUTS[modname], seed=spec.get("seed", 0))
     alias = modname + "_"
+    if spec["name"] == "slow":
+        _run_slow(ctx, sp, modname, alias, spec.get("reps", 1), [SLOW_CONFIGS[spec["config"]]], spec.get("ks", [2, 3, 4, 5, 6]))
+        return
     rng = random.Random(spec.get("seed", 0) * 1000003 + spec.get("part", 0) * 97 + 31)
     if spec["name"] == "directed":
         tests = [H.mk_test([ln.format(m=alias) for ln in lines]) for lines in DIRECTED[modname]]
@@ -773,7 +934,7 @@ def run_chunk(spec, ctx):
     config.configuration.search_algorithm.chromosome_length = rng.choice([6, 12, 24])
     with sp.instrumentation_tracer.temporarily_disable():
         tests, _ = H.factory_tests(modname, spec["n"], spec["seed"] * 7919 + spec["part"] * 13 + 1)
-    tests = [t for t in tests if "spin_forever" not in t.to_code()]
+    tests = [t for t in tests if "spin_forever" not in t.to_code() and ".nap(" not in t.to_code()]
     sizes = []
     while sum(sizes) < 4 * len(tests) + 10:
         sizes += [1, rng.choice([3, 5, 8]), rng.choice([4, 6])]
